@@ -127,6 +127,129 @@ fn place(dir: &Path, which: &str, loc: Loc, src_dir_rel: &str, stem: &str, senti
     }
 }
 
+/// Run the binary once for one specification in a fresh directory under `scratch_root`.
+/// Returns (expected to fail?, problems found, details of the run).
+fn exec_spec(scratch_root: &Path, bin: &Path, id: usize, sp: &Spec) -> (bool, Vec<(&'static str, String)>, serde_json::Value) {
+        let mut expected_fail = false;
+        let dir = scratch_root.join(format!("case{}", id));
+        let (sname, stext) = SOURCES[sp.src];
+        let src_dir_rel = if sp.path_kind == 2 { "nested/deeper" } else { "" };
+        let _ = std::fs::create_dir_all(dir.join(src_dir_rel));
+        let fname = FILE_NAMES[sp.name];
+        // the stem: the file name without its last extension
+        let stem = match fname.rfind('.') {
+            Some(i) if i > 0 => &fname[..i],
+            _ => fname,
+        };
+        let src_rel = if sp.path_kind == 2 { format!("nested/deeper/{}", fname) } else { fname.to_string() };
+        let src_abs = dir.join(&src_rel);
+        if sname != "nonexistent-source" {
+            std::fs::write(&src_abs, stext).unwrap_or_else(|e| machinery_fail(&format!("cannot write {:?}: {}", src_abs, e)));
+        }
+        let (code_arg, code_path) = place(&dir, "code", sp.code, src_dir_rel, stem, sp.sentinels);
+        let (eep_arg, eep_path) = place(&dir, "eeprom", sp.eep, src_dir_rel, stem, sp.sentinels);
+        let before = list_files(&dir);
+        let mut cmd = Command::new(&bin);
+        cmd.current_dir(&dir).env("RUST_BACKTRACE", "0");
+        cmd.arg("-s").arg(if sp.path_kind == 1 { src_abs.display().to_string() } else { src_rel.clone() });
+        if let Some(a) = &code_arg {
+            cmd.arg("-o").arg(a);
+        }
+        if let Some(a) = &eep_arg {
+            cmd.arg("-e").arg(a);
+        }
+        if sp.verbose {
+            cmd.arg("-v");
+        }
+        let out = match cmd.output() {
+            Ok(o) => o,
+            Err(e) => machinery_fail(&format!("cannot run {:?}: {}", bin, e)),
+        };
+        let after = list_files(&dir);
+        let status = out.status.code();
+        let diag = !out.stdout.is_empty() || !out.stderr.is_empty();
+        // reference: the library on the same source
+        let reference = sut::build_file(src_abs.clone(), {
+            let mut s = std::collections::BTreeSet::new();
+            s.insert(avra_standard_includes());
+            s
+        });
+        let mut problems: Vec<(&'static str, String)> = vec![];
+        match &reference {
+            Outcome::Ok(b) => {
+                let need_code = !b.code.is_empty();
+                let need_eep = !b.eeprom.is_empty();
+                let code_fail = need_code && !sp.code.writable();
+                let eep_fail = need_eep && !sp.eep.writable();
+                if code_fail || eep_fail {
+                    expected_fail = true;
+                    if status == Some(0) {
+                        problems.push(("exit-status-zero-on-write-failure", format!("an output file cannot be written ({}{}) but the exit status is 0", if code_fail { format!("code -> {:?} ", sp.code) } else { String::new() }, if eep_fail { format!("eeprom -> {:?}", sp.eep) } else { String::new() })));
+                    }
+                    if !diag {
+                        problems.push(("no-diagnostic", "an output file cannot be written and nothing is reported".into()));
+                    }
+                } else {
+                    let unwritable_unused = (!need_code && !sp.code.writable()) || (!need_eep && !sp.eep.writable());
+                    expected_fail = false;
+                    if status != Some(0) && !unwritable_unused {
+                        problems.push(("exit-status-nonzero-on-success", format!("the build and all writes succeed but the exit status is {:?}; output: {}", status, String::from_utf8_lossy(&out.stdout).trim())));
+                    }
+                }
+                for (which, need, loc, path, image) in [("code", need_code, sp.code, &code_path, &b.code), ("eeprom", need_eep, sp.eep, &eep_path, &b.eeprom)] {
+                    if !loc.writable() {
+                        continue;
+                    }
+                    let content = std::fs::read(path).ok();
+                    if need {
+                        match content {
+                            None => problems.push(("missing-output-file", format!("no {} file at {}", which, path.strip_prefix(&dir).unwrap_or(path).display()))),
+                            Some(c) => match ihex::decode(&c) {
+                                Err(e) => problems.push(("malformed-output-file", format!("{} file: {}", which, e))),
+                                Ok(d) => {
+                                    if let Some(e) = ihex::compare(&d, image) {
+                                        problems.push(("wrong-output-file", format!("{} file does not decode to the library's image: {}", which, e)));
+                                    }
+                                }
+                            },
+                        }
+                    } else if let Some(c) = content {
+                        // empty image: an absent file, an untouched sentinel or a file that decodes to nothing
+                        let fine = c == SENTINEL || ihex::decode(&c).map(|d| d.bytes.is_empty()).unwrap_or(false);
+                        if !fine {
+                            problems.push(("file-for-empty-image", format!("the {} image is empty but {} holds something else", which, path.strip_prefix(&dir).unwrap_or(path).display())));
+                        }
+                    }
+                }
+            }
+            Outcome::Err(_) => {
+                expected_fail = true;
+                if status == Some(0) {
+                    problems.push(("exit-status-zero-on-build-failure", format!("the build fails but the exit status is 0; output: {}", String::from_utf8_lossy(&out.stdout).trim().chars().take(120).collect::<String>())));
+                }
+                if !diag {
+                    problems.push(("no-diagnostic", "the build fails and nothing is reported".into()));
+                }
+                if before != after {
+                    let created: Vec<&String> = after.keys().filter(|k| !before.contains_key(*k)).collect();
+                    let changed: Vec<&String> = before.iter().filter(|(k, v)| after.get(*k) != Some(v)).map(|(k, _)| k).collect();
+                    problems.push(("files-touched-on-build-failure", format!("the build fails but files were created {:?} or altered/removed {:?}", created, changed)));
+                }
+            }
+            Outcome::Panic { site, msg } => problems.push(("reference-panic", format!("build_file panics at {}: {}", site, msg))),
+        }
+        if status.is_none() {
+            problems.push(("killed-by-signal", format!("the tool died from a signal; stderr: {}", String::from_utf8_lossy(&out.stderr).trim())));
+        }
+        let argv = format!("avra-rs -s {} {} {} {}", if sp.path_kind == 1 { src_abs.display().to_string() } else { src_rel.clone() }, code_arg.clone().map(|a| format!("-o {}", a)).unwrap_or_default(), eep_arg.clone().map(|a| format!("-e {}", a)).unwrap_or_default(), if sp.verbose { "-v" } else { "" });
+        let detail = json!({"kind": "cli", "source_kind": sname, "source": stext, "argv": argv,
+            "spec": {"name": sp.name, "src": sp.src, "code": format!("{:?}", sp.code), "eep": format!("{:?}", sp.eep), "verbose": sp.verbose, "path_kind": sp.path_kind, "sentinels": sp.sentinels},
+            "code_location": format!("{:?}", sp.code), "eeprom_location": format!("{:?}", sp.eep), "exit_status": status,
+            "stdout": String::from_utf8_lossy(&out.stdout), "stderr": String::from_utf8_lossy(&out.stderr), "library_result": reference.to_json()});
+        let _ = std::fs::remove_dir_all(&dir);
+        (expected_fail, problems, detail)
+}
+
 pub fn run(tier: Tier) -> i32 {
     let rep = Report::new("C18", tier, "fault_enumeration");
     ihex::self_check().unwrap_or_else(|e| machinery_fail(&format!("Intel HEX reader self-check failed: {}", e)));
@@ -175,128 +298,21 @@ pub fn run(tier: Tier) -> i32 {
     let n_fail = AtomicU64::new(0);
     let kinds: Mutex<BTreeMap<String, u64>> = Mutex::new(BTreeMap::new());
     specs.par_iter().enumerate().for_each(|(id, sp)| {
-        let dir = scratch.path.join(format!("case{}", id));
-        let (sname, stext) = SOURCES[sp.src];
-        let src_dir_rel = if sp.path_kind == 2 { "nested/deeper" } else { "" };
-        let _ = std::fs::create_dir_all(dir.join(src_dir_rel));
-        let fname = FILE_NAMES[sp.name];
-        // the stem: the file name without its last extension
-        let stem = match fname.rfind('.') {
-            Some(i) if i > 0 => &fname[..i],
-            _ => fname,
-        };
-        let src_rel = if sp.path_kind == 2 { format!("nested/deeper/{}", fname) } else { fname.to_string() };
-        let src_abs = dir.join(&src_rel);
-        if sname != "nonexistent-source" {
-            std::fs::write(&src_abs, stext).unwrap_or_else(|e| machinery_fail(&format!("cannot write {:?}: {}", src_abs, e)));
-        }
-        let (code_arg, code_path) = place(&dir, "code", sp.code, src_dir_rel, stem, sp.sentinels);
-        let (eep_arg, eep_path) = place(&dir, "eeprom", sp.eep, src_dir_rel, stem, sp.sentinels);
-        let before = list_files(&dir);
-        let mut cmd = Command::new(&bin);
-        cmd.current_dir(&dir).env("RUST_BACKTRACE", "0");
-        cmd.arg("-s").arg(if sp.path_kind == 1 { src_abs.display().to_string() } else { src_rel.clone() });
-        if let Some(a) = &code_arg {
-            cmd.arg("-o").arg(a);
-        }
-        if let Some(a) = &eep_arg {
-            cmd.arg("-e").arg(a);
-        }
-        if sp.verbose {
-            cmd.arg("-v");
-        }
-        let out = match cmd.output() {
-            Ok(o) => o,
-            Err(e) => machinery_fail(&format!("cannot run {:?}: {}", bin, e)),
-        };
+        let (expected_fail, problems, detail) = exec_spec(&scratch.path, &bin, id, sp);
         evals.fetch_add(1, Ordering::Relaxed);
-        let after = list_files(&dir);
-        let status = out.status.code();
-        let diag = !out.stdout.is_empty() || !out.stderr.is_empty();
-        // reference: the library on the same source
-        let reference = sut::build_file(src_abs.clone(), {
-            let mut s = std::collections::BTreeSet::new();
-            s.insert(avra_standard_includes());
-            s
-        });
-        let mut problems: Vec<(&'static str, String)> = vec![];
-        match &reference {
-            Outcome::Ok(b) => {
-                let need_code = !b.code.is_empty();
-                let need_eep = !b.eeprom.is_empty();
-                let code_fail = need_code && !sp.code.writable();
-                let eep_fail = need_eep && !sp.eep.writable();
-                if code_fail || eep_fail {
-                    n_fail.fetch_add(1, Ordering::Relaxed);
-                    if status == Some(0) {
-                        problems.push(("exit-status-zero-on-write-failure", format!("an output file cannot be written ({}{}) but the exit status is 0", if code_fail { format!("code -> {:?} ", sp.code) } else { String::new() }, if eep_fail { format!("eeprom -> {:?}", sp.eep) } else { String::new() })));
-                    }
-                    if !diag {
-                        problems.push(("no-diagnostic", "an output file cannot be written and nothing is reported".into()));
-                    }
-                } else {
-                    let unwritable_unused = (!need_code && !sp.code.writable()) || (!need_eep && !sp.eep.writable());
-                    n_ok.fetch_add(1, Ordering::Relaxed);
-                    if status != Some(0) && !unwritable_unused {
-                        problems.push(("exit-status-nonzero-on-success", format!("the build and all writes succeed but the exit status is {:?}; output: {}", status, String::from_utf8_lossy(&out.stdout).trim())));
-                    }
-                }
-                for (which, need, loc, path, image) in [("code", need_code, sp.code, &code_path, &b.code), ("eeprom", need_eep, sp.eep, &eep_path, &b.eeprom)] {
-                    if !loc.writable() {
-                        continue;
-                    }
-                    let content = std::fs::read(path).ok();
-                    if need {
-                        match content {
-                            None => problems.push(("missing-output-file", format!("no {} file at {}", which, path.strip_prefix(&dir).unwrap_or(path).display()))),
-                            Some(c) => match ihex::decode(&c) {
-                                Err(e) => problems.push(("malformed-output-file", format!("{} file: {}", which, e))),
-                                Ok(d) => {
-                                    if let Some(e) = ihex::compare(&d, image) {
-                                        problems.push(("wrong-output-file", format!("{} file does not decode to the library's image: {}", which, e)));
-                                    }
-                                }
-                            },
-                        }
-                    } else if let Some(c) = content {
-                        // empty image: an absent file, an untouched sentinel or a file that decodes to nothing
-                        let fine = c == SENTINEL || ihex::decode(&c).map(|d| d.bytes.is_empty()).unwrap_or(false);
-                        if !fine {
-                            problems.push(("file-for-empty-image", format!("the {} image is empty but {} holds something else", which, path.strip_prefix(&dir).unwrap_or(path).display())));
-                        }
-                    }
-                }
-            }
-            Outcome::Err(_) => {
-                n_fail.fetch_add(1, Ordering::Relaxed);
-                if status == Some(0) {
-                    problems.push(("exit-status-zero-on-build-failure", format!("the build fails but the exit status is 0; output: {}", String::from_utf8_lossy(&out.stdout).trim().chars().take(120).collect::<String>())));
-                }
-                if !diag {
-                    problems.push(("no-diagnostic", "the build fails and nothing is reported".into()));
-                }
-                if before != after {
-                    let created: Vec<&String> = after.keys().filter(|k| !before.contains_key(*k)).collect();
-                    let changed: Vec<&String> = before.iter().filter(|(k, v)| after.get(*k) != Some(v)).map(|(k, _)| k).collect();
-                    problems.push(("files-touched-on-build-failure", format!("the build fails but files were created {:?} or altered/removed {:?}", created, changed)));
-                }
-            }
-            Outcome::Panic { site, msg } => problems.push(("reference-panic", format!("build_file panics at {}: {}", site, msg))),
+        if expected_fail {
+            n_fail.fetch_add(1, Ordering::Relaxed);
+        } else {
+            n_ok.fetch_add(1, Ordering::Relaxed);
         }
-        if status.is_none() {
-            problems.push(("killed-by-signal", format!("the tool died from a signal; stderr: {}", String::from_utf8_lossy(&out.stderr).trim())));
-        }
+        let sname = SOURCES[sp.src].0;
+        let fname = FILE_NAMES[sp.name];
         for (kind, what) in problems {
             *kinds.lock().unwrap().entry(kind.to_string()).or_insert(0) += 1;
             let key = format!("C18/{}/source={}/code-location={:?}/eeprom-location={:?}", kind, sname, sp.code, sp.eep);
             let key = if sp.name == 0 { key } else { format!("{}/file-name={}", key, fname.replace(' ', "_")) };
-            rep.violation(&key, || format!("{} [source file {}, verbose={}, source path kind {}, sentinels={}]", what, fname, sp.verbose, sp.path_kind, sp.sentinels), || {
-                json!({"kind": "cli", "source_kind": sname, "source": stext, "argv": format!("avra-rs -s {} {} {} {}", src_rel, code_arg.clone().map(|a| format!("-o {}", a)).unwrap_or_default(), eep_arg.clone().map(|a| format!("-e {}", a)).unwrap_or_default(), if sp.verbose { "-v" } else { "" }),
-                       "code_location": format!("{:?}", sp.code), "eeprom_location": format!("{:?}", sp.eep), "exit_status": status,
-                       "stdout": String::from_utf8_lossy(&out.stdout), "stderr": String::from_utf8_lossy(&out.stderr), "library_result": reference.to_json()})
-            });
+            rep.violation(&key, || format!("{} [source file {}, verbose={}, source path kind {}, sentinels={}]", what, fname, sp.verbose, sp.path_kind, sp.sentinels), || detail.clone());
         }
-        let _ = std::fs::remove_dir_all(&dir);
     });
     rep.guard(n_ok.load(Ordering::Relaxed) > 100 && n_fail.load(Ordering::Relaxed) > 100, "need both succeeding and failing runs");
     rep.sample(|| json!({"argv": "avra-rs -s prog.asm -o missing_dir_code/x.hex", "source": SOURCES[0].1, "expected": "exit status != 0 and a diagnostic (the output cannot be written)"}));
@@ -323,4 +339,52 @@ pub fn run(tier: Tier) -> i32 {
 fn avra_standard_includes() -> PathBuf {
     // the directory the CLI passes as include path; irrelevant for these sources (none includes a shipped file)
     PathBuf::from("/nonexistent-standard-includes")
+}
+
+fn loc_from(t: &str) -> Loc {
+    match t {
+        "Default" => Loc::Default,
+        "DefaultIsDir" => Loc::DefaultIsDir,
+        "Writable" => Loc::Writable,
+        "NoDir" => Loc::NoDir,
+        "IsDir" => Loc::IsDir,
+        "ParentIsFile" => Loc::ParentIsFile,
+        _ => Loc::DevFull,
+    }
+}
+
+/// `./run replay <file>` for kind "cli": run the (rebuilt) binary once more for the recorded specification
+pub fn replay(v: &serde_json::Value) -> i32 {
+    let bin = PathBuf::from(std::env::var("AVRA_BIN").unwrap_or_else(|_| "/verif/.build/cli/debug/avra-rs".to_string()));
+    if !bin.exists() {
+        println!("the avra-rs binary is not built: {:?}", bin);
+        return 2;
+    }
+    let sp = &v["spec"];
+    let spec = Spec {
+        name: sp["name"].as_u64().unwrap_or(0) as usize,
+        src: sp["src"].as_u64().unwrap_or(0) as usize,
+        code: loc_from(sp["code"].as_str().unwrap_or("Default")),
+        eep: loc_from(sp["eep"].as_str().unwrap_or("Default")),
+        verbose: sp["verbose"].as_bool().unwrap_or(false),
+        path_kind: sp["path_kind"].as_u64().unwrap_or(0) as u8,
+        sentinels: sp["sentinels"].as_bool().unwrap_or(false),
+    };
+    let scratch = Scratch::new("c18replay");
+    let (_, problems, detail) = exec_spec(&scratch.path, &bin, 0, &spec);
+    println!("argv        : {}", detail["argv"]);
+    println!("source      :\n{}", detail["source"].as_str().unwrap_or(""));
+    println!("recorded    : exit {} stdout {:?}", v["exit_status"], v["stdout"].as_str().unwrap_or(""));
+    println!("now         : exit {} stdout {:?} stderr {:?}", detail["exit_status"], detail["stdout"].as_str().unwrap_or(""), detail["stderr"].as_str().unwrap_or(""));
+    println!("library     : {}", detail["library_result"]);
+    if problems.is_empty() {
+        println!("no problem with this run on the current tree");
+        0
+    } else {
+        for (k, w) in problems {
+            println!("PROBLEM {}: {}", k, w);
+        }
+        println!("REPRODUCED");
+        1
+    }
 }
